@@ -300,6 +300,7 @@ def compileAt (cfg : ECfg) (tok : Tok) : XM TExpr := do
     -- TokenRef(exc.token); raise exc
     xSetTokenRaw etok.pos etok.str.length
     xRaise { cls := cls, msg := Str.ofString msg }
+  | .error (.templateNoSrc cls _ _) => xUnsupported ("compile error " ++ cls)
   | .error (.crash cls) => xUnsupported ("compile crash " ++ cls)
 
 def evalValue (cfg : ECfg) (al : List (Str × Val)) (env : Env) (tok : Tok) (esc : Esc) (dflt : Option Str) : XM Val := do
@@ -376,6 +377,7 @@ def evalEN (cfg : ECfg) (al : List (Str × Val)) (env : Env) : Nat → EN → XM
       | .error (.template cls msg etok) => do
         xSetTokenRaw etok.pos etok.str.length
         xRaise { cls := cls, msg := Str.ofString msg }
+      | .error (.templateNoSrc cls _ _) => xUnsupported ("compile error " ++ cls)
       | .error (.crash cls) => xUnsupported ("compile crash " ++ cls)
       | .ok parts => do
         xSetToken tok
